@@ -50,17 +50,21 @@ def createMessage (H : List UInt8 → List UInt8) (m : Parsed) : List UInt8 :=
 
 def isDigit (b : UInt8) : Bool := 48 ≤ b.toNat && b.toNat ≤ 57
 
+/-- the optional sign of `strconv.ParseInt` -/
+def signSplit : List UInt8 → Bool × List UInt8
+  | 43 :: r => (false, r)
+  | 45 :: r => (true, r)
+  | s => (false, s)
+
+/-- value of a digit string in base 10 -/
+def decValue (ds : List UInt8) : Nat := ds.foldl (fun acc d => acc * 10 + (d.toNat - 48)) 0
+
 /-- `strconv.ParseInt(s, 10, 32)`: optional sign, at least one digit, digits only, value within int32 -/
 def parseInt32 (s : List UInt8) : Option Int :=
-  let (neg, ds) := match s with
-    | 43 :: r => (false, r)
-    | 45 :: r => (true, r)
-    | _ => (false, s)
-  if ds.isEmpty || !ds.all isDigit then none
-  else
-    let v : Nat := ds.foldl (fun acc d => acc * 10 + (d.toNat - 48)) 0
-    if neg then (if v ≤ 2147483648 then some (-(v : Int)) else none)
-    else (if v ≤ 2147483647 then some (v : Int) else none)
+  if (signSplit s).2.isEmpty || !(signSplit s).2.all isDigit then none
+  else if (signSplit s).1 then
+    (if decValue (signSplit s).2 ≤ 2147483648 then some (-(decValue (signSplit s).2 : Int)) else none)
+  else (if decValue (signSplit s).2 ≤ 2147483647 then some (decValue (signSplit s).2 : Int) else none)
 
 def hexVal (b : UInt8) : Option Nat :=
   let n := b.toNat
@@ -126,25 +130,29 @@ def compareStateInitWithAddress (H : List UInt8 → List UInt8) (addr : List UIn
     pure (h == addr)
   | .roots _ => .err "invalid state init"
 
+/-- `Maybe (## n)` / `Maybe TickTock` fields that are only skipped -/
+def optSkip (r : CellR) (flag : Bool) (n : Nat) : Outcome CellR :=
+  if flag then (r.readBits n).bind (fun x => .ok x.2) else .ok r
+
+/-- `Maybe ^Cell` (`Maybe[Ref[boc.Cell]]`): a pruned branch in that position leaves the zero (empty) cell -/
+def optRef (r : CellR) (flag : Bool) : Outcome (Option Cell × CellR) :=
+  if flag then (r.nextRef).bind (fun x => .ok (some (if x.1.ty = tyPruned then Cell.ordinary [] [] else x.1), x.2))
+  else .ok (none, r)
+
 /-- tlb.StateInit decoded as far as ParseStateInit looks: code and data references -/
 def decodeStateInit (c : Cell) : Outcome (Option Cell × Option Cell) :=
   if c.ty = tyLibrary then .err "library cell decoding is not configured properly"
   else do
-    let r := CellR.ofCell c
-    let (sd, r) ← r.readBit
-    let r ← if sd then (r.readBits 5).bind (fun x => .ok x.2) else pure r
+    let (sd, r) ← (CellR.ofCell c).readBit
+    let r ← optSkip r sd 5
     let (sp, r) ← r.readBit
-    let r ← if sp then (r.readBits 2).bind (fun x => .ok x.2) else pure r
+    let r ← optSkip r sp 2
     let (hc, r) ← r.readBit
-    -- Ref[boc.Cell]: a pruned branch in that position leaves the zero (empty) cell
-    let unprune := fun (x : Cell) => if x.ty = tyPruned then Cell.ordinary [] [] else x
-    let (code, r) ← if hc then (r.nextRef).bind (fun x => .ok (some (unprune x.1), x.2)) else pure (none, r)
+    let (code, r) ← optRef r hc
     let (hd, r) ← r.readBit
-    let (data, r) ← if hd then (r.nextRef).bind (fun x => .ok (some (unprune x.1), x.2)) else pure (none, r)
+    let (data, r) ← optRef r hd
     let (lib, r) ← r.readBit
-    if lib then
-      let (_, _) ← r.nextRef
-      .err "unmodelled: state-init with libraries"
+    if lib then (r.nextRef).bind (fun _ => .err "unmodelled: state-init with libraries")
     else pure (code, data)
 
 /-- the public key the data layout of a known version holds. `ver` is the Go version number found for the code hash
@@ -222,9 +230,8 @@ def natBytes (n : Nat) : List UInt8 :=
 def getWalletPubKey : Getter → Outcome (List UInt8)
   | .fail => .err "get method"
   | .int v =>
-    let b := natBytes v.natAbs
-    if b.length < 24 ∨ b.length > 32 then .err "invalid public key"
-    else .ok (List.replicate (32 - b.length) 0 ++ b)
+    if (natBytes v.natAbs).length < 24 ∨ (natBytes v.natAbs).length > 32 then .err "invalid public key"
+    else .ok (List.replicate (32 - (natBytes v.natAbs).length) 0 ++ natBytes v.natAbs)
 
 /-! ### CheckProof -/
 
@@ -242,7 +249,7 @@ structure Env where
   nowNs : Int
   lifeProof : Int
   payloadOk : Bool                        -- verdict of the checkPayload callback
-  domainOk : Outcome Bool                 -- verdict of the checkDomain callback
+  domainOk : Option Bool                  -- verdict of the checkDomain callback; none = it returned an error
   getter : Getter
   known : List (List UInt8 × Nat)
   deriving Inhabited
@@ -267,8 +274,7 @@ part left-padded with zeros to 64 digits; the friendly-form fallback cannot succ
 def parseAccountID (addr : List UInt8) : Outcome (Int × List UInt8) :=
   match splitColon addr with
   | [wcs, hx] =>
-    let hx := List.replicate (64 - hx.length) 48 ++ hx
-    match parseInt32 wcs, hexDecode hx with
+    match parseInt32 wcs, hexDecode (List.replicate (64 - hx.length) 48 ++ hx) with
     | some wc, some a => if a.length = 32 then .ok (wc, a) else .err "address len must be 32 bytes"
     | _, _ => .err "account id"
   | _ => .err "account id"
@@ -277,34 +283,58 @@ def parseAccountID (addr : List UInt8) : Outcome (Int × List UInt8) :=
 def signatureVerify (verify : List UInt8 → List UInt8 → List UInt8 → Bool) (pk msg sig : List UInt8) : Outcome Bool :=
   if pk.length ≠ 32 then .panic "ed25519: bad public key length" else .ok (verify pk msg sig)
 
+/-- the fallback of `CheckProof` when the get-method gives no key: the supplied state-init must hash to the account
+address, then `ParseStateInit` -/
+def keyFromStateInit (parse : BocResult → Outcome (List UInt8)) (H : List UInt8 → List UInt8) (acc : List UInt8)
+    (p : ProofIn) : Outcome (List UInt8) :=
+  if p.stateInitEmpty then .err "failed to get public key"
+  else
+    match compareStateInitWithAddress H acc p.stateInit with
+    | .err e => .err e
+    | .panic x => .panic x
+    | .ok false => .err "failed to compare state init with address"
+    | .ok true =>
+      match parse p.stateInit with
+      | .ok k => .ok k
+      | .err _ => .err "failed to get public key"
+      | .panic x => .panic x
+
+/-- `getWalletPubKey`, falling back to the state-init on ANY error of the get-method path -/
+def obtainKey (parse : BocResult → Outcome (List UInt8)) (H : List UInt8 → List UInt8) (env : Env) (acc : List UInt8)
+    (p : ProofIn) : Outcome (List UInt8) :=
+  match getWalletPubKey env.getter with
+  | .ok k => .ok k
+  | .panic x => .panic x
+  | .err _ => keyFromStateInit parse H acc p
+
 /-- `Server.CheckProof`, parametrised by the `ParseStateInit` in force: `ok pk` = `(true, pk, nil)` -/
 def checkProofWith (parse : BocResult → Outcome (List UInt8)) (H : List UInt8 → List UInt8)
     (verify : List UInt8 → List UInt8 → List UInt8 → Bool) (env : Env) (p : ProofIn) : Outcome (List UInt8) :=
   if !env.payloadOk then .err "failed to verify payload"
-  else do
-    let parsed ← convertTonProofMessage p
-    if olderThan env.nowNs parsed.ts env.lifeProof then .err "proof has been expired"
-    else
-      let dom ← env.domainOk
-      if !dom then .err "invalid domain"
+  else
+    match convertTonProofMessage p with
+    | .err e => .err e
+    | .panic x => .panic x
+    | .ok parsed =>
+      if olderThan env.nowNs parsed.ts env.lifeProof then .err "proof has been expired"
       else
-        let (_, acc) ← parseAccountID p.address
-        let pk ← match getWalletPubKey env.getter with
-          | .ok k => pure k
+        match env.domainOk with
+        | none => .err "domain check failed"
+        | some false => .err "invalid domain"
+        | some true =>
+          match parseAccountID p.address with
+          | .err e => .err e
           | .panic x => .panic x
-          | .err _ =>
-            if p.stateInitEmpty then .err "failed to get public key"
-            else do
-              let same ← compareStateInitWithAddress H acc p.stateInit
-              if !same then .err "failed to compare state init with address"
-              else
-                match parse p.stateInit with
-                | .ok k => pure k
-                | .err _ => .err "failed to get public key"
-                | .panic x => .panic x
-        let mes := createMessage H parsed
-        let ok ← signatureVerify verify pk mes (p.signature.getD [])
-        if !ok then .err "failed to proof" else pure pk
+          | .ok (_, acc) =>
+            match obtainKey parse H env acc p with
+            | .err e => .err e
+            | .panic x => .panic x
+            | .ok pk =>
+              match signatureVerify verify pk (createMessage H parsed) (p.signature.getD []) with
+              | .ok true => .ok pk
+              | .ok false => .err "failed to proof"
+              | .err e => .err e
+              | .panic x => .panic x
 
 def checkProof (H : List UInt8 → List UInt8) (verify : List UInt8 → List UInt8 → List UInt8 → Bool) (env : Env) (p : ProofIn) :
     Outcome (List UInt8) :=
@@ -317,7 +347,9 @@ def checkProofV0 (H : List UInt8 → List UInt8) (verify : List UInt8 → List U
 /-! ### client side -/
 
 /-- the raw form `wc:hex` of an account id (`AccountID.ToRaw`) -/
-def decimalBytes (n : Nat) : List UInt8 := (toString n).toList.map fun c => UInt8.ofNat c.toNat
+def decimalBytes (n : Nat) : List UInt8 :=
+  if n < 10 then [UInt8.ofNat (48 + n)] else decimalBytes (n / 10) ++ [UInt8.ofNat (48 + n % 10)]
+decreasing_by omega
 def rawAddress (wc : Int) (addr : List UInt8) : List UInt8 :=
   (if wc < 0 then [45] ++ decimalBytes wc.natAbs else decimalBytes wc.natAbs) ++ [58] ++ hexEncode addr
 
